@@ -646,6 +646,35 @@ func ttlBoundaryProbe(seconds int32, add ttlAdd, st *oracleStats) {
 	add("C19:expired-document-kept", "boundary probe: the document never expired", detail)
 }
 
+// ttlDollarFieldProbe: a TTL index on a field whose name starts with `$`.
+// MongoDB rejects such index keys; if lungo accepts one, the pass must still
+// expire the documents of the other collections.  (Known finding: Expire
+// builds {$or: [{"$x": {$lt: …}}]}, which the matcher rejects as an unknown
+// top-level operator, so every pass fails and nothing ever expires.)
+func ttlDollarFieldProbe(add ttlAdd) {
+	detail := map[string]interface{}{"probe": "dollar-field"}
+	client, engine, err := lungo.Open(nil, lungo.Options{Store: lungo.NewMemoryStore(), ExpireInterval: time.Hour})
+	if err != nil {
+		return
+	}
+	defer engine.Close()
+	ctx := context.Background()
+	if _, err := client.Database("db").Collection("bad").Indexes().CreateOne(ctx, mongo.IndexModel{Keys: bson.D{{Key: "$x", Value: int32(1)}}, Options: options.Index().SetExpireAfterSeconds(60)}); err != nil {
+		return // refused, as MongoDB does: nothing to check
+	}
+	client.Database("db").Collection("bad").InsertOne(ctx, bson.D{{Key: "_id", Value: int32(1)}})
+	good := client.Database("db").Collection("good")
+	if _, err := good.Indexes().CreateOne(ctx, mongo.IndexModel{Keys: bson.D{{Key: "a", Value: int32(1)}}, Options: options.Index().SetExpireAfterSeconds(60)}); err != nil {
+		return
+	}
+	good.InsertOne(ctx, bson.D{{Key: "_id", Value: int32(1)}, {Key: "a", Value: primitive.DateTime(time.Now().UnixMilli() - 3600*1000)}})
+	_, _, perr := ttlPass(engine)
+	left := len(engine.Catalog().Namespaces[lungo.Handle{"db", "good"}].Documents.List)
+	if perr != nil || left != 0 {
+		add("C19:dollar-field-ttl-index-blocks-expiry", fmt.Sprintf("a TTL index on field \"$x\" in db.bad was accepted; the pass then reports %v and the expired document of db.good stays (%d left)", perr, left), detail)
+	}
+}
+
 // ttlBackgroundProbe: the engine's own expiry loop (Engine.expire).
 func ttlBackgroundProbe(add ttlAdd) {
 	detail := map[string]interface{}{"probe": "background-loop"}
@@ -693,7 +722,7 @@ func ttlBackgroundProbe(add ttlAdd) {
 }
 
 func oracleTTL(r *rng, n int, st *oracleStats) []oracleFailure {
-	st.Rule = "per evaluation one in-memory engine with 3 collections in 2 databases, each with 0-2 TTL indexes (fields a, b, s.t; expireAfterSeconds 0/60/3600/7200; ascending or descending; one in six partial) next to non-TTL, compound and unique indexes, created before or after the documents; 0-10 documents per collection whose indexed fields hold dates at least 5 s on either side of every cut-off, int64/double numbers equal to such dates, strings, null, timestamps, booleans, ObjectIDs, sub-documents, arrays (dates + others, only non-dates, empty, nested), missing fields, and for the dotted path sub-documents, arrays of sub-documents and non-documents. Transaction.Expire runs through Engine.Begin(lock)/Commit; an independent re-implementation of the rule decides which documents must be gone (exactly those, order kept, bytes unchanged), collections without TTL index byte-identical incl. index entries, index definitions kept, the oplog gains exactly one delete event per removed document (per namespace in order, nothing else), a pass that removes nothing leaves Engine.Catalog() pointer-identical (also a second pass). Once per run: boundary probes (passes back to back across the exact cut-off, expireAfterSeconds 0 and 1) and the background loop with ExpireInterval 50 ms. Non-trivial = a TTL collection lost some and kept some documents"
+	st.Rule = "per evaluation one in-memory engine with 3 collections in 2 databases, each with 0-2 TTL indexes (fields a, b, s.t; expireAfterSeconds 0/60/3600/7200; ascending or descending; one in six partial) next to non-TTL, compound and unique indexes, created before or after the documents; 0-10 documents per collection whose indexed fields hold dates at least 5 s on either side of every cut-off, int64/double numbers equal to such dates, strings, null, timestamps, booleans, ObjectIDs, sub-documents, arrays (dates + others, only non-dates, empty, nested), missing fields, and for the dotted path sub-documents, arrays of sub-documents and non-documents. Transaction.Expire runs through Engine.Begin(lock)/Commit; an independent re-implementation of the rule decides which documents must be gone (exactly those, order kept, bytes unchanged), collections without TTL index byte-identical incl. index entries, index definitions kept, the oplog gains exactly one delete event per removed document (per namespace in order, nothing else), a pass that removes nothing leaves Engine.Catalog() pointer-identical (also a second pass). Once per run: boundary probes (passes back to back across the exact cut-off, expireAfterSeconds 0 and 1), the background loop with ExpireInterval 50 ms, and a TTL index on a `$`-prefixed field (known finding). Non-trivial = a TTL collection lost some and kept some documents"
 	var fails []oracleFailure
 	add := func(sig, what string, detail interface{}) {
 		for _, f := range fails {
@@ -706,8 +735,9 @@ func oracleTTL(r *rng, n int, st *oracleStats) []oracleFailure {
 		}
 	}
 	ttlBackgroundProbe(add)
-	st.Evaluations++
-	for i := 0; i < 3; i++ {
+	ttlDollarFieldProbe(add)
+	st.Evaluations += 2
+	for i := 0; i < 6; i++ {
 		ttlBoundaryProbe(pick(r, []int32{0, 1, 1}), add, st)
 		st.Evaluations++
 	}
@@ -744,6 +774,8 @@ func replayTTL(f oracleFailure) []oracleFailure {
 		}
 	case m["probe"] == "background-loop":
 		ttlBackgroundProbe(add)
+	case m["probe"] == "dollar-field":
+		ttlDollarFieldProbe(add)
 	default:
 		s, _ := m["seed"].(string)
 		seed, err := strconv.ParseUint(s, 10, 64)
